@@ -2,6 +2,8 @@
 package main
 
 import (
+	"os"
+	"encoding/json"
 	"bytes"
 	"fmt"
 	"strings"
@@ -20,6 +22,57 @@ import (
 )
 
 func main() { Main(run) }
+
+// ---- replay support: `-extra replay=<file>` regenerates the stored run (same seed / tier / budget,
+// passed by the driver) and keeps only the stored case of the stored group
+type replaySel struct {
+	group string
+	idx   int
+}
+
+func parseReplay(extra string) (*replaySel, error) {
+	if !strings.HasPrefix(extra, "replay=") {
+		return nil, nil
+	}
+	raw, err := os.ReadFile(strings.TrimPrefix(extra, "replay="))
+	if err != nil {
+		return nil, err
+	}
+	var r struct {
+		Group string                 `json:"group"`
+		Case  map[string]interface{} `json:"case"`
+	}
+	if err := json.Unmarshal(raw, &r); err != nil {
+		return nil, err
+	}
+	idx, ok := r.Case["idx"].(float64)
+	if !ok {
+		return nil, fmt.Errorf("replay file has no case index")
+	}
+	return &replaySel{r.Group, int(idx)}, nil
+}
+
+// keep returns the items of one group as they go to the cases file
+func (s *replaySel) keep(group string, items []string) []string {
+	if s == nil {
+		return items
+	}
+	if group == s.group && s.idx < len(items) {
+		return items[s.idx : s.idx+1]
+	}
+	return nil
+}
+func (s *replaySel) keepJSON(m map[string][]map[string]interface{}) map[string][]map[string]interface{} {
+	if s == nil {
+		return m
+	}
+	out := map[string][]map[string]interface{}{}
+	if cs := m[s.group]; s.idx < len(cs) {
+		out[s.group] = cs[s.idx : s.idx+1]
+	}
+	return out
+}
+
 
 const testXPub = "xpub6EMRsT95ntbCFRR2Z6WppnGss1SijAkarfKoRM8tft66tuJh2nt4aJi13S21hUCLZL4cbFBXgHuxipmsS7dj1DW1s4NRup3hzxWfqUdGYv7"
 const testMnemonic = "abandon abandon abandon abandon abandon abandon abandon abandon abandon abandon abandon about"
@@ -141,6 +194,10 @@ func zlist(xs []int) string {
 
 func run(args []string) error {
 	f := ParseFlags("c13", args)
+	sel, err := parseReplay(f.Extra)
+	if err != nil {
+		return err
+	}
 	logging.Disable()
 	r := NewRng(f.Seed)
 	n := f.Budget(300, 10000)
@@ -472,7 +529,7 @@ func run(args []string) error {
 		if len(short) > 70 {
 			short = short[:70]
 		}
-		cj := map[string]interface{}{"case": lab, "n_in": nin, "indexes": fmt.Sprint(idx), "result": short, "input_untouched": untouched, "txn_hex": fmt.Sprintf("%x", before)}
+		cj := map[string]interface{}{"idx": i, "n": n, "case": lab, "n_in": nin, "indexes": fmt.Sprint(idx), "result": short, "input_untouched": untouched, "txn_hex": fmt.Sprintf("%x", before)}
 		caseJSON["sign"] = append(caseJSON["sign"], cj)
 		o.Count(fmt.Sprint("sign", wT, tT, idx, own), true)
 		hist.Add("result:" + short)
@@ -483,10 +540,10 @@ func run(args []string) error {
 			samples = append(samples, cj)
 		}
 	}
-	o.Def("cases_sign", "wallet * stx * list Z * list Z * R (list (bool * bool * bool)) * bool * bool", cases)
+	o.Def("cases_sign", "wallet * stx * list Z * list Z * R (list (bool * bool * bool)) * bool * bool", sel.keep("sign", cases))
 	o.Side["rule"] = "wallets: deterministic, bip44, collection (sharing a key with the deterministic one), xpub (watch-only), encrypted deterministic / collection, empty collection; transactions of 1-6 inputs owned by wallet keys / duplicate owners / keys of other wallets / watch-only or unknown addresses, unsigned / partially signed (by the owner, by somebody else, over another input's message) / fully signed / junk signatures; damaged headers (inner hash, signature array empty / short / long, no inputs, uxOuts short / long); index lists: none, subsets in random order, exactly the unsigned ones, duplicates, out of range, too many. Every case counts (distinct by wallet, transaction shape, indexes and owners)."
 	o.Side["distribution"] = hist.Sorted()
 	o.Side["samples"] = samples
-	o.Side["cases"] = caseJSON
+	o.Side["cases"] = sel.keepJSON(caseJSON)
 	return o.Write(f.Out, f.JSON)
 }
